@@ -458,6 +458,133 @@ func TestVerif_C23(t *testing.T) {
 		}
 		x.Outcome("%d|trace=%v|reason=%s|ra=%s|seen=%v", code, trace, hdr.Get(HeaderAuthReason), hdr.Get("Retry-After"), seen)
 	})
+
+	// ------------------------------------------------------------------
+	// Space 3: request HISTORIES on one chain. The same ChainAuthenticate value
+	// (and the same HttpServer) serves several consecutive requests; each
+	// member's outcome is chosen independently per request. The statement's
+	// rules are per request: whatever earlier requests did (who accepted, who
+	// failed) must not change which members are consulted, in which order, or
+	// what the answer is.
+	histAlpha := pick("ok", "rpc-ValueError/bare", "rpc-PermissionError/bare", "unavailable-7/bare", "plain/bare")
+	type histShape struct{ members, requests int }
+	histShapes := []histShape{{2, 2}, {3, 2}}
+	if venum.Thorough() {
+		histAlpha = append(histAlpha, pick("failure-expired_credential/bare", "rpc-ValueError/wrap1")...)
+		histShapes = []histShape{{2, 2}, {3, 2}, {2, 3}}
+	}
+	venum.SetInfo("history_alphabet", fmt.Sprint(len(histAlpha)))
+	venum.Explore(t, venum.Cfg{Name: "chain-histories", Shardable: true}, func(x *venum.X) {
+		// first choice has a fixed arity (shardable): outcome of member 0 on request 0
+		firstVal := x.Choose(len(histAlpha), "r0.a0")
+		shape := histShapes[x.Choose(len(histShapes), "shape")]
+		vals := make([][]vfC23Val, shape.requests)
+		for r := range vals {
+			vals[r] = make([]vfC23Val, shape.members)
+			for i := range vals[r] {
+				if r == 0 && i == 0 {
+					vals[r][i] = histAlpha[firstVal]
+					continue
+				}
+				vals[r][i] = histAlpha[x.Choose(len(histAlpha), fmt.Sprintf("r%d.a%d", r, i))]
+			}
+		}
+		var seen []string
+		h, err := vfC23Server(false, &seen)
+		if err != nil {
+			venum.EngineError("C23 server setup: %v", err)
+			return
+		}
+		cur := 0
+		var trace []int
+		fns := make([]AuthenticateFunc, shape.members)
+		for i := range fns {
+			i := i
+			fns[i] = func(r *http.Request) (*AuthContext, error) {
+				trace = append(trace, i)
+				v := vals[cur][i]
+				if v.ok() {
+					return &AuthContext{Domain: "vf", Authenticated: true, Principal: fmt.Sprintf("p%d", i)}, nil
+				}
+				return nil, v.mk()
+			}
+		}
+		h.SetAuthenticate(ChainAuthenticate(fns...))
+
+		var outcome []string
+		for r := 0; r < shape.requests; r++ {
+			cur, trace, seen = r, nil, nil
+			code, hdr, pan := vfC23Post(h, "unary")
+			stop := -1
+			for i, v := range vals[r] {
+				if v.ok() || v.unavailable || v.directRpc != "ValueError" {
+					stop = i
+					break
+				}
+			}
+			// what happened before this request, as far as a stateful chain could care
+			prev := "first-request"
+			if r > 0 {
+				prev = "after-" + vfC23HistClass(vals[r-1])
+			}
+			sig := fmt.Sprintf("C23:history:%s:", prev)
+			if stop < 0 {
+				sig += "all-ValueError"
+			} else {
+				sig += fmt.Sprintf("stop@%d:%s/%s", stop, vals[r][stop].base, vals[r][stop].form)
+			}
+			if pan != nil {
+				x.Failf(sig+":panic", "panic escaped on request %d: %v", r, pan)
+				return
+			}
+			wantLen := shape.members
+			if stop >= 0 {
+				wantLen = stop + 1
+			}
+			traceOK := len(trace) == wantLen
+			for i := range trace {
+				if trace[i] != i {
+					traceOK = false
+				}
+			}
+			if !traceOK {
+				x.Failf(sig+":trace", "request %d of the history: authenticators invoked %v, statement demands 0..%d in order (this request: %s; previous: %s)",
+					r, trace, wantLen-1, vfC23Names(vals[r]), prev)
+			}
+			if stop < 0 {
+				if code == 200 || len(seen) != 0 {
+					x.Failf(sig+":exhausted-chain-accepted", "request %d: status %d, handler calls %v", r, code, seen)
+				}
+			} else {
+				final := vals[r][stop]
+				vfC23Check(x, sig, vfC23Reference(final), code, hdr, false, "")
+				if final.ok() {
+					wantP := fmt.Sprintf("unary:p%d", stop)
+					if len(seen) != 1 || seen[0] != wantP {
+						x.Failf(sig+":identity", "request %d: handler saw %v, want [%s] (first success in registration order)", r, seen, wantP)
+					}
+				} else if len(seen) != 0 {
+					x.Failf(sig+":handler-ran", "request %d: rejected request reached user code: %v", r, seen)
+				}
+			}
+			outcome = append(outcome, fmt.Sprintf("%d|%v|%s|%s|%v", code, trace, hdr.Get(HeaderAuthReason), hdr.Get("Retry-After"), seen))
+		}
+		x.Outcome("%s", strings.Join(outcome, " ; "))
+	})
+}
+
+// vfC23HistClass summarises a request's outcome vector by who (if anyone) the
+// chain stopped at and how.
+func vfC23HistClass(vals []vfC23Val) string {
+	for i, v := range vals {
+		if v.ok() {
+			return fmt.Sprintf("accept@%d", i)
+		}
+		if v.unavailable || v.directRpc != "ValueError" {
+			return fmt.Sprintf("stop@%d", i)
+		}
+	}
+	return "all-declined"
 }
 
 func vfC23Names(vals []vfC23Val) string {
